@@ -450,12 +450,22 @@ class Explorer:
         if st.value is not None:
             for o in self.simple(st, state):
                 if o.kind == NEXT:
-                    outs.append(Outcome(RETURN, self.sem.on_return(st, o.state.note(st, "return")), st.value, st))
+                    for val, s2 in self._split_ifexp(st.value, o.state):
+                        outs.append(Outcome(RETURN, self.sem.on_return(st, s2.note(st, "return")), val, st))
                 else:
                     outs.append(o)
         else:
             outs.append(Outcome(RETURN, self.sem.on_return(st, state.note(st, "return")), None, st))
         return outs
+
+    def _split_ifexp(self, value, state):
+        """`return a if test else b` forks on the test."""
+        if isinstance(value, ast.IfExp):
+            out = []
+            for truth, s in self.test(value.test, state):
+                out.extend(self._split_ifexp(value.body if truth else value.orelse, s))
+            return out
+        return [(value, state)]
 
     def s_Raise(self, st, state):
         sem = self.sem
